@@ -575,12 +575,10 @@ def validation_rules(ck, fb):
     rcn = Canon(rt)
 
     def exact(cn_, blk, must):
+        from .canon import eq_match
         for s_, pol, c in cn_.facts(blk):
-            m = _re.fullmatch(r"\(P0\.remaining_bytes\(\) != (.+)\)", s_)
-            if m and pol is False and all(w in m.group(1) for w in must):
-                return True
-            m = _re.fullmatch(r"\(P0\.remaining_bytes\(\) == (.+)\)", s_)
-            if m and pol is True and all(w in m.group(1) for w in must):
+            m = eq_match(s_, "==", r"P0\.remaining_bytes\(\)", r"(.+)", pol=pol, want="==")
+            if m and all(w in m[1].group(1) for w in must):
                 return True
         return False
     for callee in ("read_edges", "read_faces", "read_cells"):
